@@ -22,7 +22,8 @@ CLAIMS = {
             "functions and methods; mutation sites enumerated from the grammar and the API table",
             "Decides, for every function and method of the package on all paths, that no in-place effect reaches a value "
             "aliasing a parameter (callee effects included), that every store to a signal's values is a fresh ndarray "
-            "(ownership, kind, npts pairing), that time = dt*arange(npts) and is a fresh array on every read, and that no global "
+            "(ownership, kind, npts pairing; after reset_values with an array of another length npts is the new length on both signal classes), "
+            "that time = dt*arange(npts) and is a fresh array on every read, and that no global "
             "state / RNG is used; parameters a function itself treats as possibly array-valued are analysed both as scalars and "
             "as arrays; out= is an in-place effect for every API row. "
             "Bit-for-bit equality of results follows from these plus NumPy determinism, which is assumed, not shown.",
@@ -53,7 +54,8 @@ CLAIMS = {
             "parity so the result is scale- and sign-invariant and proportional to dt, start/end are the first/last element of "
             "one ascending index array in (start, end) order with a non-negative difference, the user measure is honoured, the "
             "bracketed fallback is taken exactly on an empty exceedance set, and the record is read through the signal's managed "
-            "interface only (no snapshot attribute such as arias_intensity_series). "
+            "interface only (no snapshot attribute such as arias_intensity_series), and on a record used before the series compared with "
+            "the bounds is the value the supplied measure returned in this call (nothing memoised on the record can be searched instead). "
             "Shift-by-k and widening corollaries are consequences for monotone measures (typed in C09), not checked directly.",
             "Trusted: API rows np.where/cumsum/cumulative_trapezoid; user-supplied measure modelled as an opaque positive-homogeneous value."),
     "C01": ("syntax-tree rules + polynomial normal form (with interpreted exp/sin/cos/sqrt applications) compared against a "
@@ -128,7 +130,8 @@ CLAIMS = {
             "(band/low/high with the right element, Nyquist normalisation, order keyword, all three containers); forward-backward "
             "filtering; length, dt and linearity preserved on every remove_gibbs branch; the two remove_poly implementations have "
             "equal and correct summaries; add_* guards and element-wise sums; the running average never reads the array it is "
-            "overwriting and both rolling loops use the floor(w/2) window table. Gain, phase and end effects are not decided.",
+            "overwriting, both rolling loops use the floor(w/2) window table (three-way or the equivalent two-way form) and the averaged "
+            "record keeps the record's length for any width. Gain, phase and end effects are not decided.",
             "Trusted: SciPy rows butter/filtfilt (zero phase, squared magnitude); libns treats a literal __all__ in numpy's stub as authoritative."),
     "C11": ("truth-table comparison of the max/min direction tests and strides, belief-consistency rule on the direction source, "
             "provenance of the index map, literal/decision tables of the cycle counter",
@@ -148,14 +151,16 @@ CLAIMS = {
             "(subsequence), tol < 0 raises; in the switched-peak routine every peak index 0..n-1 enters a candidate set with its own "
             "value (no placeholder), the loop appends value and index in lock step over range(1, len), the chosen index is "
             "argmax|.| mapped through the candidates' index list and np.take(peak_indices, .), excursions end on a non-strict "
-            "product. Exactness over all sign/zero patterns is NOT decided.",
+            "product; the first zero is always kept (literal to_begin > 1, ones-initialised keep mask, or np.diff prepend < -1); a running "
+            "(position, value) pair, where the code uses one, is kept paired at every assignment. Exactness over all sign/zero patterns is NOT decided.",
             "Thin claim: necessary structural conditions only."),
     "C13": ("degree inference with one symbolic exponent (Laurent polynomials in b), separate-atom runs for the inverse-pair "
             "bookkeeping, monotone/length typing, event-order rule for the rebase",
             "Derives for all series and all b: cycles have degree 0 and amplitudes degree (1/b)*b = 1 when record and reference "
             "scale together, all even; cycles ~ peak^(1/b)*a_ref^(-1/b) and amplitudes ~ N^(-b) with the same half-cycle weight; "
             "results have the record's length, are non-negative, amplitudes non-decreasing; both peak-only series rebase a fresh "
-            "copy before cleaning and scatter through the index map of the same cleaning call into zeros of the input's length. "
+            "copy before cleaning, take the orienting sign from the cleaned array and scatter through the index map of the same cleaning "
+            "call into zeros of the input's length. "
             "The conservation identities (total variation, signed sum), the 2^b relation and the numerical inverse are NOT decided.",
             "Trusted: API rows; documented exception: a literal <= 1e-12 selected by np.where stands for zero."),
     "C15": ("library-call skeleton comparison of the two implementations (value-numbered lengths), linearity/dtype/shape typing, "
@@ -177,7 +182,8 @@ CLAIMS = {
             "same-start correction is values - slave_average + master_average over one window with the master average taken from "
             "master_index; time_match hands an ndarray back (via reset_values); no state is carried from one signal's iteration to the next; the "
             "lag search has both directions over range(steps) with windows [i:i-steps] / [0:-steps] on different arrays, lag sign "
-            "by which array is padded, and is left early only on the master test or a test of the selected lag. That the residual "
+            "by which array is padded, every candidate lag competes with the running minimum (no if/elif between candidates), and it is "
+            "left early only on the master test or a test of the selected lag; a series-valued attribute name is appended whole by the scan. That the residual "
             "minimum is the true lag is NOT decided.",
             "Trusted: API rows; Cluster modelled by allocation-site summary objects."),
     "C19": ("degree/parity/sign/monotone typing over all option combinations, normal forms of the wave construction and sign "
